@@ -19,15 +19,15 @@ func init() {
 	register("C05", "other", []string{
 		"decides: exact lookup before the prefix scan, scan predicate HasPrefix(declared, typed) over the cursor's own table, ambiguity ⇒ error (listing the sorted candidates) before any effect of that pair, resolution stores/looks up the full declared name, the typed prefix flows nowhere past resolution (non-interference)",
 		"map lookup and strings.HasPrefix semantics are trusted",
-	}, rC05Matcher, rC05ParserGates, rC05FullName, rC05NonInterference)
+	}, rC05Matcher, rC05ParserGates, rC05FullName, rC05NonInterference, func(w *World, r *Report) { subRule(w, r, rC01Splitter, "R05.7", "the typed text reaches the matcher as written (same obligations as C01 R01.2)", 5) })
 	register("C06", "other", []string{
 		"decides: who may write Called/UsedAlias and the user variables; only the matched record is touched; aliases register the same record; New/Value/Save agree on the receiver field of every kind; the 12 definers have the same shape (default stored, kind ↔ pointer type, registration, modifiers) and their wrappers return the pointer they registered",
 		"behaviour of user-supplied modifier functions is not decided",
-	}, rC06Writers, rC06OnlyMatched, rC06Alias, rC06ReceiverOwnership, rC06Definers, rC06KindTable, rC06Readers, func(w *World, r *Report) { calledOnMatch(w, r, "R06.8") }, func(w *World, r *Report) { subRule(w, r, rC05Matcher, "R06.10", "names and aliases are interchangeable for abbreviations: the matcher treats every key of the table alike (same obligations as C05 R05.1)", 3) }, func(w *World, r *Report) { subRule(w, r, rC12GetEnvBody, "R06.9", "Called through the environment: the GetEnv modifier marks an option called only when it saved a valid non-empty value (same obligations as C12 R12.4)", 9) })
+	}, rC06Writers, rC06OnlyMatched, rC06Alias, rC06ReceiverOwnership, rC06Definers, rC06KindTable, rC06Readers, func(w *World, r *Report) { calledOnMatch(w, r, "R06.8") }, func(w *World, r *Report) { subRule(w, r, rC10CopyOptions, "R06.11", "the record a command sees is the parent's own (same obligations as C10 R10.5)", 3) }, func(w *World, r *Report) { subRule(w, r, rC01Splitter, "R06.12", "one-letter and non-ASCII aliases reach the matcher unmangled (same obligations as C01 R01.2)", 5) }, func(w *World, r *Report) { subRule(w, r, rC05Matcher, "R06.10", "names and aliases are interchangeable for abbreviations: the matcher treats every key of the table alike (same obligations as C05 R05.1)", 3) }, func(w *World, r *Report) { subRule(w, r, rC12GetEnvBody, "R06.9", "Called through the environment: the GetEnv modifier marks an option called only when it saved a valid non-empty value (same obligations as C12 R12.4)", 9) })
 	register("C07", "other", []string{
 		"decides: long options never consult the mode (information flow), Normal-mode single-dash branch ≡ long-option branch (structural equality), rune/byte unit consistency, bundling: one pair per character and only the last receives the attached value, single-dash: first rune is the option and the rest plus the attached text is the value; the parser hands the mode to the splitter only; Parse passes the root's mode",
 		"the string equivalences themselves (-xyz=v ≡ -x -y -z=v, -xREST ≡ --x=REST) are decided only through these structural conditions",
-	}, rC07ModeFlow, rC07NormalIsLong, rC07Units, rC07Bundling, rC07SingleDash)
+	}, rC07ModeFlow, rC07NormalIsLong, rC07Units, rC07Bundling, rC07SingleDash, rC07Messages)
 }
 
 // ------------------------------------------------------------------ C05
